@@ -1,3 +1,4 @@
+import AquaVerif.Proofs.Run
 import AquaVerif.Proofs.WaterDay
 /-
 Property C01 — the daily soil-water balance closes (mass conservation).
@@ -183,5 +184,29 @@ example : ∃ out, waterDay DayExample.Fq DayExample.Wq DayExample.fmq DayExampl
         + out.crAdded + out.gwIn - out.deepPerc - out.es - out.tr := by
   obtain ⟨out, h, _, hcr, hinfl, _⟩ := DayExample.runs
   exact ⟨out, h, hinfl, hcr, day_closes h DayExample.dayPre⟩
+
+
+/-! ### every simulated day of every run (the whole day incl. the crop side, driven by the clock) -/
+
+/-- **Run level.** On every simulated day of every run of the model (`Model/Run.lean`: the clock
+state machine driving the full day `fullDay`, with the season-start reset) the soil-water balance
+closes — by induction over the run, under the run premises `RunPre` (initial content within
+limits, bund water ≥ 0, …) and the per-day premises `DayOK` (transpiration geometry; with a water
+table: capillary rise did not use its rounding slack). -/
+theorem run_closes {F : Fn α} {T : TrigFn α} {cfg : RunCfg α} {s : RunState α}
+    (hP : RunPre F cfg) (wp fc : Nat → α) (hr : RunReach F T cfg s)
+    (hOK : ∀ d ∈ s.daysRev, DayOK F wp fc d) :
+    ∀ d ∈ s.daysRev,
+      storage d.r.state.cells + d.r.state.pond =
+        storage d.st.cells + d.st.pond + d.r.flux.infl + d.r.water.preIrr + d.r.water.irrNet
+          + d.r.water.crAdded + d.r.flux.gwIn - d.r.flux.deepPerc - d.r.flux.es - d.r.flux.tr :=
+  Aqua.run_closes hP wp fc hr hOK
+
+/-- **Run level, second sentence of the property.** Between consecutive simulated days stored
+water and ponding are carried over unchanged, except at a season start with the off-season
+skipped, where the water content is reset to the stored initial content and ponding to the
+configured bund water — for every reachable run state, no premise. -/
+theorem stored_water_carried_over {F : Fn α} {T : TrigFn α} {cfg : RunCfg α} {s : RunState α}
+    (hr : RunReach F T cfg s) : CarriedAll cfg s.daysRev := run_stored_water_carried_over hr
 
 end Aqua.C01
